@@ -83,6 +83,8 @@ def run_case(case, ctx):
     a = int(rng.integers(A, B + 1))
     b = int(rng.integers(a, B + 1))
     relation = ["scalar", "scalar", "grid", "constant-grid"][int(rng.integers(0, 4))]
+    if case["i"] == 0:
+        relation, cbca = "grid", False
     if cbca and relation == "grid":
         relation = "scalar"
     keys = ["matching_cost"] + (["aggregation"] if cbca else [])
@@ -131,7 +133,7 @@ def run_case(case, ctx):
             gmin, gmax = gen.grids(rng, rows, cols, A, B, "constant")
             ctx.gate("constant_grid_vs_scalar")
         else:
-            gmin, gmax = gen.grids(rng, rows, cols, A, B, ["random", "points", "rowwise", "band", "pointvar", "float"][int(rng.integers(0, 6))])
+            gmin, gmax = gen.grids(rng, rows, cols, A, B, (["band", "pointvar"][case["part"] % 2] if case["i"] == 0 else ["random", "points", "rowwise", "band", "pointvar", "float"][int(rng.integers(0, 6))]))
             ctx.gate("grid_of_equal_width_intervals", int(bool((gmax - gmin == (gmax - gmin).flat[0]).all()) and bool((gmin != gmin.flat[0]).any())))
             ctx.gate("grid_vs_hull")
         g = cost_volume(pipe, *ds((gmin, gmax)), after_kind)
